@@ -53,7 +53,9 @@ def tables(acc, name, tier, shard, nshards):
     elif name == "extra":
         A = c02.extra_atoms(tier)
     elif name == "py":
-        A = [a for a in c02.py_atoms("quick") if not a["rev"]][:: 7 if quick else 3]
+        full = [a for a in c02.py_atoms("quick") if not a["rev"]]
+        A = full[:: 7 if quick else 3]
+        A += [a for a in full if "+" in a["val"] and a not in A]  # local-label literals (== / != only) always take part
     else:
         A = c02.rel_atoms()[:: 3 if quick else 1]
     for i, (x, y, z) in enumerate(itertools.product(A, repeat=3)):
